@@ -4,7 +4,7 @@ import ast
 
 from .model import AnalysisError, dotted, unparse, FuncInfo
 from .paths import Paths, call_attr, call_name, PathExplosion
-from .util import U, is_socket_recv, is_yield_call, equiv_facts
+from .util import U, is_socket_recv, is_yield_call, equiv_facts, FACTS
 
 UPS = {'AsyncProcessResponse', 'AsyncProcessResponseMessage', 'AsyncProcessResponseStream'}
 REGISTER = {'rawlink', 'ContinueWith', 'Subscribe', 'Schedule', 'SafeLink', 'link', 'Map'}
@@ -79,10 +79,9 @@ class SinkProto(object):
       out = []
       for ev, ex in raw:
         alts = [[]]
-        facts = []
+        facts = FACTS(ev)
         for e in ev:
           if e.kind == 'cond':
-            facts.extend(equiv_facts(e.node, e.info))
             for a in alts:
               a.append(Item('COND', e.node, (U(e.node).replace(' ', ''), e.info)))
             continue
@@ -147,6 +146,12 @@ class SinkProto(object):
     t = self._resolve_callable(expr, f)
     if t is not None and t.parent is not None and mentions(t.node, stack) and stack not in t.params:
       return self.summarize(t, stack, depth - 1)
+    if isinstance(expr, ast.Name) and t is None and depth > 0:
+      # a local holding a callable: name = lambda ... / functools.partial(...)
+      defs = [st.value for st in ast.walk(f.node) if isinstance(st, ast.Assign) and len(st.targets) == 1
+              and isinstance(st.targets[0], ast.Name) and st.targets[0].id == expr.id]
+      if len(defs) == 1 and isinstance(defs[0], (ast.Lambda, ast.Call)):
+        return self._callable_summary(defs[0], f, stack, depth - 1)
     return None
 
   def _resolve_callable(self, expr, f):
@@ -254,6 +259,8 @@ class SinkProto(object):
       if any(mentions(x, 'msg') or mentions(x, 'stream') for x in args):
         return [[Item('HANDOFF', call, 'queue ' + U(fn.value))]]
       return [[Item('COMPLETER', call, 'store ' + U(fn.value))]]
+    if name in ('functools.partial', 'partial'):
+      return None      # builds a callable; it is classified where it is registered / called
     # direct helper call with the stack as argument, or a closure over the stack
     if has_stack_arg or (isinstance(fn, ast.Name) and self._is_closure_over(fn.id, f, stack)):
       targets, status = self.prog.resolve_call(call, f)
